@@ -57,7 +57,9 @@ const SigCtlReadFromFull = "ctl-readfrom-fills-wbuf-exactly"
 // finding (so that the search continues behind it) and returns how many it
 // rewrote.
 func steerWriteProgram(prop string, cfg ConnCfg, steps []WStep) ([]WStep, int) {
-	if !IsKnown(prop, SigCtlReadFromFull) || cfg.WriteBuf < 1 || cfg.WriteBuf > 125 {
+	// The finding is recorded under C01 ("valid messages are accepted"); every
+	// check that reuses the write-program grammar steers away from it too.
+	if !(IsKnown("C01", SigCtlReadFromFull) || IsKnown(prop, SigCtlReadFromFull)) || cfg.WriteBuf < 1 || cfg.WriteBuf > 125 {
 		return steps, 0
 	}
 	n := 0
